@@ -3,6 +3,22 @@
 
 package utils
 
+import (
+	"bufio"
+	"io"
+	"math"
+)
+
+// NewLineScanner returns a scanner that splits the input into lines of any length.
+// A plain bufio.Scanner stops at the first line longer than 64 KiB and, unless
+// its error is checked, silently drops the rest of the input.
+func NewLineScanner(reader io.Reader) *bufio.Scanner {
+	scanner := bufio.NewScanner(reader)
+	scanner.Buffer(make([]byte, 0, bufio.MaxScanTokenSize), math.MaxInt)
+	scanner.Split(bufio.ScanLines)
+	return scanner
+}
+
 func IsEscaped(input string, position int) bool {
 	escapeCounter := 0
 	for backtrackIndex := position - 1; backtrackIndex >= 0; backtrackIndex-- {
